@@ -340,3 +340,48 @@ def memo_form(fn):
                 if ok_last:
                     return {"slot": slot, "compute": list(body[1:-1]), "store_stmts": stores(body[1:], slot)}
     return None
+
+
+def bool_atoms(e, atoms):
+    """propositional skeleton of a test: nested tuples over atom indices; atoms are canonical texts of the
+    non-boolean parts (`a not in b` is Not(`a in b`), `a is not b` is Not(`a is b`), `a != b` is Not(`a == b`))"""
+    if isinstance(e, ast.BoolOp):
+        return ("and" if isinstance(e.op, ast.And) else "or",) + tuple(bool_atoms(v, atoms) for v in e.values)
+    if isinstance(e, ast.UnaryOp) and isinstance(e.op, ast.Not):
+        return ("not", bool_atoms(e.operand, atoms))
+    if isinstance(e, ast.Compare) and len(e.ops) == 1 and isinstance(e.ops[0], (ast.NotIn, ast.IsNot, ast.NotEq)):
+        pos = {ast.NotIn: ast.In, ast.IsNot: ast.Is, ast.NotEq: ast.Eq}[type(e.ops[0])]()
+        return ("not", bool_atoms(ast.Compare(left=e.left, ops=[pos], comparators=e.comparators), atoms))
+    if isinstance(e, ast.Constant) and e.value in (True, False):
+        return ("const", bool(e.value))
+    t = " ".join(ast.unparse(e).split())
+    if t not in atoms:
+        atoms.append(t)
+    return ("atom", atoms.index(t))
+
+
+def bool_eval(sk, val):
+    k = sk[0]
+    if k == "atom":
+        return val[sk[1]]
+    if k == "const":
+        return sk[1]
+    if k == "not":
+        return not bool_eval(sk[1], val)
+    if k == "and":
+        return all(bool_eval(x, val) for x in sk[1:])
+    return any(bool_eval(x, val) for x in sk[1:])
+
+
+def bool_equiv(e1, e2, max_atoms=8):
+    """are two tests the same propositional function of their (canonical) atomic parts?"""
+    atoms = []
+    s1, s2 = bool_atoms(e1, atoms), bool_atoms(e2, atoms)
+    if len(atoms) > max_atoms:
+        return False
+    import itertools
+
+    for val in itertools.product((False, True), repeat=len(atoms)):
+        if bool_eval(s1, val) != bool_eval(s2, val):
+            return False
+    return True
